@@ -161,20 +161,21 @@ let () = register "prog" (fun ic ->
            (match find_sig !c (tokn t 1) with
             | Some s when s.ss_def.sg_type = jLS_SIGNAL_TYPE_FSR -> emit ("len 0 " ^ dec_of_n (rd_length s))
             | _ -> emit "len E")
-         | "rd" ->
+         | "rd" | "rdn" ->
            let start = toki t 2 and count = toki t 3 in
            (match find_sig !c (tokn t 1) with
             | Some s when s.ss_def.sg_type = jLS_SIGNAL_TYPE_FSR ->
-              if Int64.compare count 0L <= 0 then emit "rd 0"
-              else if Int64.compare start 0L < 0 then emit "rd E"
+              if Int64.compare count 0L <= 0 then emit (name ^ " 0")
+              else if Int64.compare start 0L < 0 then emit (name ^ " E")
               else (match rd_window s (n_of_i64 start) (n_of_i64 count) with
-                  | None -> emit "rd E"
+                  | None -> emit (name ^ " E")
                   | Some bytes ->
                     let il = ints_of_bytes bytes in
                     let nb = List.length il in
                     let head = List.filteri (fun i _ -> i < 24) il in
+                    if name = "rdn" then emit (Printf.sprintf "rdn 0 %d" nb) else
                     emit (Printf.sprintf "rd 0 %d %016Lx %s" nb (fnv64 il) (String.concat "" (List.map (Printf.sprintf "%02x") head))))
-            | _ -> emit "rd E")
+            | _ -> emit (name ^ " E"))
          | "an" ->
            (match find_sig !c (tokn t 1) with
             | None -> emit "an E"
